@@ -177,6 +177,7 @@ struct Checker<'a> {
     obs_findings: std::rc::Rc<std::cell::RefCell<Vec<String>>>,
     obs_count: std::rc::Rc<std::cell::Cell<u64>>,
     last_exit_ok: bool,
+    exit_fault: Option<u64>,
     lifetime: usize,
     op_ordinal: u64,
     /// bytes written to code and not yet covered by an icache flush
@@ -844,6 +845,12 @@ impl<'a> Hooks for Checker<'a> {
         });
         with_world(|w| w.mark(0xFFFF_0000 | self.lifetime as u32));
         self.ev_mark = with_world(|w| w.events.len());
+        if let Some(k) = self.exit_fault {
+            with_world(|w| {
+                w.policy.fail_mprotect = vec![w.counters.mprotect_calls + k];
+            });
+            self.mprotect_faults_before = with_world(|w| w.counters.mprotect_injected_fail);
+        }
     }
 }
 
@@ -949,6 +956,15 @@ pub fn validate(sc: &SimScenario) -> Result<(), String> {
             return Err("forwarder index".into());
         }
     }
+    for (li, lt) in sc.lifetimes.iter().enumerate() {
+        if lt.exit_mprotect_fail.is_some() {
+            // judged only for the last lifetime and only when no function is faked twice in it
+            let mut seen = BTreeSet::new();
+            if li + 1 != sc.lifetimes.len() || !lt.ops.iter().all(|o| seen.insert(o.target)) {
+                return Err("exit_mprotect_fail needs the last lifetime with every function faked at most once".into());
+            }
+        }
+    }
     for lt in &sc.lifetimes {
         for op in &lt.ops {
             if op.target >= sc.targets.len() {
@@ -980,6 +996,7 @@ pub fn execute(sc: &SimScenario) -> Outcome {
         obs_findings: Default::default(),
         obs_count: Default::default(),
         last_exit_ok: false,
+        exit_fault: None,
         lifetime: 0,
         op_ordinal: 0,
         dirty: BTreeSet::new(),
@@ -1029,7 +1046,11 @@ pub fn execute(sc: &SimScenario) -> Outcome {
         ck.counted_installed = false;
         with_world(|w| w.policy.mprotect_deny.clear());
         let ev_start = with_world(|w| w.events.len());
+        ck.exit_fault = if lt.exit_panic { None } else { lt.exit_mprotect_fail };
         let r = dispatch(&sc.variant, lt, &sc.targets, &mut ck);
+        let exit_fault_fired = ck.exit_fault.is_some() && with_world(|w| w.counters.mprotect_injected_fail) > ck.mprotect_faults_before;
+        with_world(|w| w.policy.fail_mprotect.clear());
+        ck.exit_fault = None;
         // pages this lifetime's trampolines lived in and gave back
         freed_last = with_world(|w| {
             w.events[ev_start.min(w.events.len())..]
@@ -1054,6 +1075,29 @@ pub fn execute(sc: &SimScenario) -> Outcome {
             ck.viol("drop-crashed-sigsegv", &["C02", "C05"], format!("{what}: restoration while unwinding touched {:#x} ({}) and would have died with SIGSEGV", sg.addr, if sg.write { "write" } else { "read" }));
             ck.check_events(&what, None);
             break;
+        }
+        if exit_fault_fired {
+            *ck.out.faults.entry("mprotect_refused_during_restoration".into()).or_insert(0) += 1;
+            if let OpResult::Panic(m) = &r {
+                if m.to_lowercase().contains("protect") {
+                    // The restoration was refused by the OS and said so.  Nothing claims that it
+                    // completes; but every function must still be either original or reach one of
+                    // its fakes -- a call must never end anywhere else.  The scenario ends here.
+                    let mut allowed: Vec<Vec<Dest>> = Vec::new();
+                    for ti in 0..sc.targets.len() {
+                        let mut v = ck.dests_of(ti);
+                        v.push(Dest::Orig);
+                        allowed.push(v);
+                    }
+                    let mut obs = ck.make_observer(allowed);
+                    with_world(|w| obs(w, "refused-restoration"));
+                    let first = { let mut b = ck.obs_findings.borrow_mut(); let f = b.first().cloned(); b.clear(); f };
+                    if let Some(f) = first {
+                        ck.viol("function-incoherent-after-refused-restoration", &["C01", "C02"], format!("{what}: after the restoration was refused ({m:?}): {f}"));
+                    }
+                    break;
+                }
+            }
         }
         match r {
             OpResult::Ok => {}
